@@ -131,6 +131,20 @@ _sites = [
     ("Include dependency cycle", "include_cycle"),
     ("Duplicate definitions in master", "duplicate_master"),
     ("Incompatible parameter objects", "incompatible"),
+    ("Too many values for", "too_many"),
+    ("Not enough values for", "not_enough"),
+    ("Multiple choices for", "choice_multiple"),
+    ("Unspecified choice for", "choice_unspecified"),
+    ("Improper master choice definition", "improper_master_choice"),
+    ("Invalid choice", "invalid_choice"),
+    ("Empty list for mandatory", "empty_mandatory_choice"),
+]
+_contains = [
+    (" element is less than the minimum allowed value", "value_min"),
+    (" element is greater than the maximum allowed value", "value_max"),
+    (" element cannot be None", "element_none"),
+    (" element cannot be Auto", "element_auto"),
+    (" cannot be None", "cannot_be_none"),
 ]
 _num_site = re.compile(r"^Error interpreting .* as a(n)? (numeric|integer|floating-point) expression", re.S)
 _brace_line = re.compile(r'for "\{" at (?:[^,]*, )?(?:input )?line (\d+)$')
@@ -148,6 +162,11 @@ def classify_runtime(msg):
         if m:
             site = {"numeric": "numeric_expected", "integer": "integer_expected",
                     "floating-point": "float_expected"}[m.group(2)]
+        else:
+            for sub, s2 in _contains:
+                if sub in msg:
+                    site = s2
+                    break
     if site == "no_matching_brace":
         m = _brace_line.search(msg)
         return site, (int(m.group(1)) if m else None)
@@ -180,6 +199,8 @@ def same_outcome(model, impl, compare_site=True):
     """compare a model answer with an implementation answer; None = skip (unsupported)"""
     if isinstance(model, list) and model and model[0] == "unsupported":
         return None
+    if isinstance(model, list) and len(model) == 2 and model[0] == "type-failed":
+        return None if model[1] and model[1][0] == "unsupported" else False
     if isinstance(model, list) and len(model) == 2 and model[0] == "parse-failed":
         if model[1] and model[1][0] == "unsupported":
             return None
